@@ -20,10 +20,12 @@ def main(tier, seed, replay):
         k.model_check("MC_Event", ev_consts(stypes=("SOrd", "SMap", "STrig"), emits=2, ticks=3, idle=1, cframes=3), inv, module=M, timeout=3000)
         k.model_check("MC_Event_late", ev_consts(stypes=("SOrd", "SMap"), emits=2, ticks=2, idle=1, init=()), inv, module=M, timeout=3000)
         k.model_check("MC_Event_modes", ev_consts(stypes=("SOrd",), modes=("all", "direct", "except"), emits=3, ticks=2), inv, module=M, timeout=3000)
+        k.model_check("MC_Event_unreliable", ev_consts(stypes=("SUnr",), emits=2, ticks=2, cframes=3), inv, module=M, timeout=3000)
+        k.must_find("MC_Event_unreliable_NoQueue", ev_consts(impl="ImplNoQueue", stypes=("SUnr",)), ["Inv_C04"], module=M)
         k.must_find("MC_Event_NoQueue", ev_consts(impl="ImplNoQueue"), ["Inv_C04"], module=M)
         tr = k.validate_profile("events", 2500)
         k.validate_profile("events_custom", 1500)
     k.selftest(tr)
     return k.finish(assumptions=[
         "deliveries are observed by reader systems / observers inside the client apps together with ServerUpdateTick and the entity map at that moment",
-        "each event type travels on its own ordered channel; the update channel and every event channel are delayed independently"])
+        "each event type travels on its own channel (ordered reliable ones, and an unreliable one with loss and reordering for SUnr / CUnr); the update channel and every event channel are delayed independently"])
